@@ -1,6 +1,7 @@
 import Fv.Lemmas.Mpmc2BSafeStep
 import Fv.Lemmas.Mpmc2BWakeA
 import Fv.Lemmas.Mpmc2BWakeW
+import Fv.Lemmas.Mpmc2BWakeD
 /-!
 # mpmc bounded v2 — B-model theorems (feed C01, C02, C03, C05, C06)
 
@@ -138,10 +139,44 @@ theorem mpmc2_disconnected_means_drained {cap s} (hr : Reach cap s) {t : Nat}
         all_goals simp at hs
   exact ⟨hq, by rw [mpmc2_linearised hr, hq]; simp⟩
 
+/-! ## No dangling waiter record (all reachable states, no hypothesis) — finding F17, repaired -/
+
+/-- **No dangling waiter record**: every record queued in `waiting_async_receivers` belongs to a live
+`RecvFuture` of its owner — the owner is inside a poll of that future, Pending on it, or inside its unlink /
+`Drop` path. The raw state pointer a sender CASes and wakes through therefore always points into a live future,
+whatever the environment does (spurious polls of registered futures, drops of woken futures, any interleaving).
+This is the invariant finding F17 broke (a re-polled registered future took an item and returned Ready leaving
+its WAITING record queued: use-after-free on the next send); it holds since fix cd494c8. -/
+theorem mpmc2_no_dangling_waiter_record {cap s} (h : Reach cap s) {r : Nat} (hr : r ∈ s.war) :
+    liveFutR (s.pc (s.owner r)) = some r := (invD_reach h).live_war r hr
+
+/-- … in particular an agent whose operation has returned (or that has none) owns no queued receiver record:
+a future that resolved — by taking an item in a spurious re-poll, by Disconnected, by being dropped — left none. -/
+theorem mpmc2_resolved_future_leaves_no_record {cap s} (h : Reach cap s) {t : Nat} (hp : (s.pc t).atRest = true)
+    {r : Nat} (hr : r ∈ s.war) : s.owner r ≠ t := by
+  intro ho
+  have := mpmc2_no_dangling_waiter_record h hr
+  rw [ho] at this
+  cases hpc : s.pc t <;> simp [hpc, PC.atRest, liveFutR] at hp this
+
+/-- the step that used to leave the record: the locked section of a re-polled, still registered future that
+takes an item (or sees Disconnected) removes its own record, whatever the state. -/
+theorem mpmc2_repoll_ready_unlinks (s : State) (t r : Nat) (hd : ∃ x, (stepArTry s t r).pc t = .done x) :
+    r ∉ (stepArTry s t r).war := by
+  obtain ⟨x, hx⟩ := hd
+  unfold stepArTry at hx ⊢
+  split
+  · rename_i v s1 hs
+    simp [List.mem_filter]
+  · split
+    · simp [List.mem_filter]
+    · rename_i hs h0
+      simp [hs, h0, upd_apply] at hx
+
 /-! ## Wake-ups (C05 / C06), proved for runs satisfying `Benign` at every step:
-no future is dropped between being woken and its next poll (F2), and a `RecvFuture` is polled again
-only after its state byte left WAITING (F17). Blocking (thread) operations need no hypothesis of
-their own; the hypothesis only restricts the environment labels `poll` / `dropFut`. -/
+no future is dropped between being woken and its next poll (F2). Blocking (thread) operations need no
+hypothesis of their own; the hypothesis only restricts the environment label `dropFut` (spurious polls of a
+registered `RecvFuture` are unrestricted since the repair of F17). -/
 
 /-- **Q1** (DESIGN A.5): while some receiver record is still WAITING, every buffered item is matched
 by a distinct receiver that was CASed to SUCCESS and woken in the same locked section and has not
@@ -202,6 +237,7 @@ theorem woken_recv_runnable {cap s} (h : ReachB cap s) {r : Nat} (hr : r ∈ s.a
     case toCas r' => exact ⟨s.owner r, Or.inl (by simp [stepAdv, hp])⟩
     case toFin r' => exact ⟨s.owner r, Or.inl (by simp [stepAdv, hp])⟩
     case arTry r' => exact ⟨s.owner r, Or.inl (by simp [stepAdv, hp])⟩
+    case arReg r' => exact ⟨s.owner r, Or.inl (by simp [stepAdv, hp])⟩
     case rPark r' =>
       subst hw
       exact ⟨_, hWake_runnable ((invW_reach h).k3 (s.owner r') r' (by simp [hp, waitish]) (Or.inl hs) h0)⟩
@@ -215,6 +251,7 @@ theorem woken_recv_runnable {cap s} (h : ReachB cap s) {r : Nat} (hr : r ∈ s.a
     case toCas r' => exact ⟨s.owner r, Or.inl (by simp [stepAdv, hp])⟩
     case toFin r' => exact ⟨s.owner r, Or.inl (by simp [stepAdv, hp])⟩
     case arTry r' => exact ⟨s.owner r, Or.inl (by simp [stepAdv, hp])⟩
+    case arReg r' => exact ⟨s.owner r, Or.inl (by simp [stepAdv, hp])⟩
     case rPark r' => exact ⟨s.owner r, Or.inl (by simp [stepAdv, hp, stepRPark, hpos])⟩
     case arPend r' => exact ⟨s.owner r, Or.inr ⟨r', by simp [hp, waitish], hpos⟩⟩
 
@@ -336,11 +373,34 @@ theorem mpmc2_quiescent_nobody_stuck {cap s} (h : ReachB cap s) (hq : ∀ u, ¬ 
       obtain ⟨u, hu⟩ := mpmc2_no_lost_wakeup_send h hb h0 (Or.inr hs)
       exact absurd hu (hq u)
 
+instance (s : State) (t : Nat) (l : Label) : Decidable (Benign s t l) := by
+  unfold Benign; split <;> infer_instance
+
+/-- run a schedule, checking the `Benign` hypothesis at every step -/
+def runB (s : State) : List (Nat × Label) → Option State
+  | [] => some s
+  | (t, l) :: rest => if Benign s t l then (step s t l).bind (fun s' => runB s' rest) else none
+
+theorem reachB_of_runB {cap : Nat} (tr : List (Nat × Label)) (s0 s : State) (h0 : ReachB cap s0)
+    (h : runB s0 tr = some s) : ReachB cap s := by
+  induction tr generalizing s0 with
+  | nil => simp [runB] at h; subst h; exact h0
+  | cons a rest ih =>
+    obtain ⟨t, l⟩ := a
+    simp only [runB] at h
+    split at h
+    · rename_i hb
+      simp only [Option.bind] at h
+      split at h
+      · simp at h
+      · rename_i s1 hs1; exact ih s1 (ReachB.step h0 hb hs1) h
+    · simp at h
+
 /-! ## What is false of the code today (witnesses by `decide`) -/
 
 /-- Full C06 wake statement for receive futures: a Pending `RecvFuture` whose record is still
 WAITING while an item is buffered is covered by a woken receiver that is still going to consume it.
-FALSE on every reachable state of the code as it stands (F2, F17); true on `ReachB` (`…_partial`). -/
+FALSE on `Reach` for the code as it stands (F2); true on `ReachB` (`…_partial`). -/
 def C06_mpmc2_recv_statement : Prop :=
   ∀ cap s, Reach cap s → ∀ t r, s.pc t = .arPend r → s.st r = .waiting → s.queue ≠ [] →
     ∃ r', r' ∈ s.ar ∧ wokenRecv (s.pc (s.owner r')) = some r'
@@ -422,11 +482,12 @@ theorem C06_fails_F2_mpmc2_send : ¬ C06_mpmc2_send_statement := by
     rw [hb.2.1] at hm; simp at hm; subst hm
     rw [hb.2.2] at hw; simp [wokenSend] at hw
 
-/-- **F17 (new)**: no future is dropped at all. Tasks 1 and 2 are Pending in `recv()`; `try_send(7)` wakes
-task 1; task 2 is re-polled although it was not woken (`select!` / `join!` do that): `poll_recv_internal`
-runs `try_recv_core` first, steals 7 and returns Ready — leaving its WAITING record in the queue. Task 1 is
-polled, finds nothing, re-registers behind the stale record. `try_send(8)` then CASes the stale record and
-wakes the finished task 2: task 1 is Pending, un-woken, with 8 buffered. -/
+/-- **F17 (repaired by cd494c8)**: no future is dropped at all. Tasks 1 and 2 are Pending in `recv()`;
+`try_send(7)` wakes task 1; task 2 is re-polled although it was not woken (`select!` / `join!` do that):
+`poll_recv_internal` runs `try_recv_core_for` first, takes 7 and returns Ready — and unlinks its own WAITING record
+in that locked section. Task 1 is polled, finds nothing, re-registers. `try_send(8)` CASes task 1's record and
+wakes task 1. (Before the fix the stale record of the finished task 2 was CASed instead: task 1 stayed Pending,
+un-woken, with 8 buffered — `C06_fails_F17_mpmc2_spurious_repoll`, and in the real code a use-after-free.) -/
 def trF17 : List (Nat × Label) :=
   [(1, .call .recvFut), (1, .poll), (1, .adv), (1, .adv),
    (2, .call .recvFut), (2, .poll), (2, .adv), (2, .adv),
@@ -435,22 +496,30 @@ def trF17 : List (Nat × Label) :=
    (1, .poll), (1, .adv), (1, .adv),
    (0, .call (.trySend 8)), (0, .adv)]
 
-theorem F17_run_a : (run (init 2) trF17).map (fun s => (s.pc 1, s.st 0, s.wakes 1)) =
-    some (.arPend 0, .waiting, 0) := by decide
-theorem F17_run_b : (run (init 2) trF17).map (fun s => (s.queue, s.ar, s.pc (s.owner 1))) =
-    some ([8], [1], .done (.recvOk 7)) := by decide
-theorem F17_run_c : (run (init 2) trF17).map (fun s => stuck s [0, 1, 2]) = some true := by decide
+/-- the steal: after task 2's spurious re-poll it has 7, and no record is queued any more (task 1's was consumed
+by the wake, task 2's own is unlinked by the section that took the item) -/
+theorem F17_fixed_steal_unlinks : (run (init 2) (trF17.take 12)).map (fun s => (s.pc 2, s.war, s.queue)) =
+    some (.done (.recvOk 7), [], []) := by decide
+/-- the end of the run: task 1 is Pending, its record CASed to SUCCESS, one counted wake, 8 buffered for it -/
+theorem F17_fixed_run : (run (init 2) trF17).map (fun s => (s.pc 1, s.st 0, s.wakes 1)) =
+    some (.arPend 0, .success, 1) := by decide
+theorem F17_fixed_run_b : (run (init 2) trF17).map (fun s => (s.queue, s.ar, s.war)) = some ([8], [0], []) := by decide
+/-- the finished task 2 is not woken, and the system is not stuck (task 1 has its wake) -/
+theorem F17_fixed_run_c : (run (init 2) trF17).map (fun s => (s.wakes 2, stuck s [0, 1, 2])) = some (0, false) := by decide
+/-- … and the whole run satisfies the hypothesis of the `_partial` theorems (the spurious re-poll is benign now) -/
+theorem F17_fixed_run_benign : (runB (init 2) trF17).isSome = true := by decide
 
-theorem C06_fails_F17_mpmc2_spurious_repoll : ¬ C06_mpmc2_recv_statement := by
-  intro hC
-  cases hr : run (init 2) trF17 with
+/-- non-vacuity of `C06_mpmc2_recv_partial` on a run WITH a spurious re-poll (`ReachB` no longer excludes it): tasks 1
+and 2 Pending, `try_send(7)` wakes task 1, task 2 is polled spuriously between its two locked sections … here it is
+stopped right after the poll boundary: task 2 is inside `poll` on a record that is still queued and WAITING. -/
+example : ∃ s, ReachB 2 s ∧ s.pc 2 = .arTry 1 ∧ s.st 1 = .waiting ∧ s.war = [1] ∧ s.queue = [7] ∧ s.ar = [0] := by
+  cases hr : runB (init 2) (trF17.take 11) with
   | none => exact absurd hr (by decide)
   | some s =>
-    have ha := F17_run_a; have hb := F17_run_b
-    rw [hr] at ha hb; simp at ha hb
-    obtain ⟨r', hm, hw⟩ := hC 2 s (reach_of_run _ _ s .init hr) 1 0 ha.1 ha.2.1 (by simp [hb.1])
-    rw [hb.2.1] at hm; simp at hm; subst hm
-    rw [hb.2.2] at hw; simp [wokenRecv] at hw
+    have h1 : (runB (init 2) (trF17.take 11)).map (fun s => (s.pc 2, s.st 1, s.war, s.queue, s.ar)) =
+        some (.arTry 1, .waiting, [1], [7], [0]) := by decide
+    rw [hr] at h1; simp at h1
+    exact ⟨s, reachB_of_runB _ _ s .init hr, h1.1, h1.2.1, h1.2.2.1, h1.2.2.2.1, h1.2.2.2.2⟩
 
 /-- Full C05 statement for the timed receive: `recv_timeout` always returns. FALSE (F5). -/
 def C05_mpmc2_timed_statement : Prop :=
@@ -537,29 +606,6 @@ example : ∃ s, Reach 2 s ∧ s.queue = [8, 9] ∧ s.recvd = [7] ∧ s.pc 0 = .
       rw [hr] at this; simpa using this
     · have : (run (init 2) tr).map (fun s => s.pc 0) = some (.done (.sendOk 9)) := by decide
       rw [hr] at this; simpa using this
-
-instance (s : State) (t : Nat) (l : Label) : Decidable (Benign s t l) := by
-  unfold Benign; split <;> infer_instance
-
-/-- run a schedule, checking the `Benign` hypothesis at every step -/
-def runB (s : State) : List (Nat × Label) → Option State
-  | [] => some s
-  | (t, l) :: rest => if Benign s t l then (step s t l).bind (fun s' => runB s' rest) else none
-
-theorem reachB_of_runB {cap : Nat} (tr : List (Nat × Label)) (s0 s : State) (h0 : ReachB cap s0)
-    (h : runB s0 tr = some s) : ReachB cap s := by
-  induction tr generalizing s0 with
-  | nil => simp [runB] at h; subst h; exact h0
-  | cons a rest ih =>
-    obtain ⟨t, l⟩ := a
-    simp only [runB] at h
-    split at h
-    · rename_i hb
-      simp only [Option.bind] at h
-      split at h
-      · simp at h
-      · rename_i s1 hs1; exact ih s1 (ReachB.step h0 hb hs1) h
-    · simp at h
 
 /-- non-vacuity of `mpmc2_no_lost_wakeup_recv` / `mpmc2_Q1`: two threads parked in `recv`, one item sent:
 thread 2 is parked without token on a WAITING record while 7 is buffered; the theorem's conclusion is
